@@ -315,6 +315,31 @@ pub fn check_barrier_order(flat: &Flat, wins: &[Vec<Win>]) -> Result<(), Fail> {
 }
 
 /// C12: thread-local systems run on the calling thread, after all others, in registration order.
+/// C07: every inner dispatch of a batch is complete - its thread-local systems included - before
+/// the controller's next inner dispatch starts anything
+pub fn check_inner_sequence(flat: &Flat, wins: &[Vec<Win>]) -> Result<(), Fail> {
+    for bi in flat.builders.iter().filter(|b| b.owner.is_some()) {
+        let all: Vec<usize> = bi.members.iter().chain(bi.tls.iter()).cloned().collect();
+        for &a in &all {
+            for &m in &bi.members {
+                for k in 0..wins[a].len() {
+                    if let (Some(wa), Some(wm_next)) = (wins[a].get(k), wins[m].get(k + 1)) {
+                        if !(wa.end < wm_next.begin) {
+                            return Err(Fail::new(format!(
+                                "inside a batch: {}{} of inner dispatch {} (window [{}..{}]) had not finished when {} of the next inner dispatch began (t={})",
+                                flat.sys[a].sid(),
+                                if flat.sys[a].is_tl { " (thread-local)" } else { "" },
+                                k, wa.begin, wa.end, flat.sys[m].sid(), wm_next.begin
+                            )));
+                        }
+                    }
+                }
+            }
+        }
+    }
+    Ok(())
+}
+
 pub fn check_thread_local(
     flat: &Flat,
     wins: &[Vec<Win>],
